@@ -41,6 +41,12 @@ structure ClassRow where
   pinsLiteral : Bool
   /-- `default_pins` is non-empty (pin labels add nodes; not modelled) -/
   hasDefaultPins : Bool
+  /-- which `pins` property applies (`literal`, `mirror`, `invert`, `mirrorinputs`, `mirrorinputs-xor-mirror`,
+      `transistor`): recognised by the translator from the source text of the property -/
+  pinsRule : String
+  /-- the `normal_pins`, `mirror_pins`, `invert_pins`, `mirror_invert_pins`, `…_pins2` tables of the class (each
+      merged with `auxiliary`) with their key order -/
+  variants : List (String × List PinRow × List String)
 deriving Repr, DecidableEq
 
 end Lcapy.Layout
